@@ -29,10 +29,18 @@ INVS = ["KeepFirst", "LabelsDistinct", "NumericKept", "FirstRefOrder", "Compact"
 
 def doc_text(evs):
     lines, at_line = [], {}
+    seen_defs = set()
     for i, (k, l) in enumerate(evs, 1):
         at_line[i] = len(lines) + 1
-        lines += {"ref": [f"R{i} [^{l}]"], "def": [f"[^{l}]: D{i}"], "hr": ["***"], "head": [f"# {l}"],
-                  "qdef": [f"> [^{l}]: D{i}"], "nref": ["```{note}", f"R{i} [^{l}]", "```"]}[k] + [""]
+        dup_tail = ""
+        if k in ("def", "qdef"):
+            if l in seen_defs:
+                # the text of a dropped duplicate is not part of the document: a reference written inside it refers to nothing
+                other = next((m for _, m in evs if m != l), None)
+                dup_tail = f" see [^{other}]" if other and other != "-" else ""
+            seen_defs.add(l)
+        lines += {"ref": [f"R{i} [^{l}]"], "def": [f"[^{l}]: D{i}{dup_tail}"], "hr": ["***"], "head": [f"# {l}"],
+                  "qdef": [f"> [^{l}]: D{i}{dup_tail}"], "nref": ["```{note}", f"R{i} [^{l}]", "```"]}[k] + [""]
     return "\n".join(lines) + "\n", at_line
 
 
